@@ -6,7 +6,7 @@ For every operation returning CtOption / ConstCtOption whose name belongs to one
 branch inherit the branch's labels) must mention each *needed* parameter:
 
   checked add / sub / mul / square / neg : every operand   (for a fixed non-trivial operand both outcomes occur)
-  checked div / rem                      : the divisor
+  checked div / rem                      : the divisor (signed / signed division: also the dividend — MIN / -1)
   inversion (inv, inv_mod, inv_odd_mod, inv_mod2k, invert): every operand (value and modulus / inverter)
   overflowing shl / shr                  : the shift amount
 
@@ -26,7 +26,30 @@ NAME_OK = ("checked_", "overflowing_sh", "inv", "invert")
 
 class GatePolicy(flow.Policy):
     implicit_flows = True
-    external = c11.PanicPolicy.external
+
+    def external(self, engine, view, bb, term, argvals):
+        # subtle's CtOption combinators with an in-crate closure: keep `is_some` and the payload apart
+        #   and_then(o, f): is_some = o.is_some & f(o.value).is_some, value = f(o.value).value
+        #   map(o, f):      is_some = o.is_some,                      value = f(o.value)
+        n = norm_id(mir.callee_name(term) or "")
+        if n in ("subtle::CtOption<_>::and_then", "subtle::CtOption<_>::map") and len(argvals) == 2:
+            opt, clo = argvals
+            cids = [l.split(":", 1)[1] for l in clo.t.get((), flow.EMPTY) if l.startswith("closure:")]
+            if len(cids) == 1 and engine.summaries.get(cids[0]) is not None and engine.by_id[cids[0]]["argc"] == 2:
+                payload = flow.v_sub(opt, ("value",))
+                r, _ = engine.apply_summary(engine.summaries[cids[0]], [clo, payload])
+                gate = set(flow.v_read(opt, ("is_some",)))
+                if n.endswith("and_then"):
+                    gate |= set(flow.v_read(r, ("is_some",)))
+                    value = flow.v_sub(r, ("value",))
+                else:
+                    value = r
+                out = flow.v_write(flow.Val(), ("value",), value, strong=False)
+                out = flow.v_write(out, ("is_some",), flow.scalar(frozenset(x for x in gate if not x.startswith("closure:"))),
+                                   strong=False)
+                engine.closures_handled = True
+                return out, {}, ()
+        return c11.PanicPolicy.external(self, engine, view, bb, term, argvals)
 
     def post_call(self, engine, view, bb, term, ret, argvals):
         # `ConstCtOption::none(v)` / `some(v)` chosen under a branch: the flag is a constant whose choice depends on
@@ -60,11 +83,19 @@ def run(facts, report, config, select, prefix, counter, eng=None):
             continue
         summ = eng.summaries.get(b["id"])
         gate = flow.v_read(summ.ret, ("is_some",)) if summ else frozenset()
+        if summ and not any(pth and pth[0] in ("is_some", "value") and ls for pth, ls in summ.ret.t.items()):
+            # the summary does not keep the flag apart (e.g. the option went through a generically dispatched select):
+            # fall back to everything the returned option depends on
+            gate = flow.v_flat(summ.ret)
         have = set()
         for l in gate:
             if l.startswith("@"):
                 have.add(int(l[1:].split(".")[0].split("#")[0]))
         want = set(range(1, b["argc"] + 1)) if need == ALL else {p for p in need if p <= b["argc"]}
+        view = eng.view(b["id"])
+        if fam == "div" and b["argc"] >= 2 and mir.adt_of_ty(view.locals[1]) == "int::Int" and \
+                mir.adt_of_ty(view.locals[2]) == "int::Int":
+            want = {1, 2}       # signed / signed: MIN / -1 does not fit, so the dividend decides too
         # a wrapper-invariant parameter (NonZero / Odd divisor) cannot make the operation fail
         view = eng.view(b["id"])
         want = {p for p in want if fam in ("shl", "shr", "inv_mod2k") or
